@@ -20,29 +20,28 @@ from harness import c14fam as F
 
 RECLIMIT = 600
 SPEC_RE = re.compile(r"_[0-9a-f]{32}$")
-SELF_ATTR_RE = re.compile(r"(?:'(\w+)' object|type object '(\w+)') has no attribute '__mashumaro_(?:to|from)_dict\w*__'")
-
-
-def self_referencing(fam, name) -> bool:
-    for i, c in enumerate(fam["classes"]):
-        if c["name"] == name:
-            return any(t[0] == "dc" and t[1] == i for _, t in F.all_fields(fam, i))
-    return False
-
 
 # ---------------------------------------------------------------------------
 # cases
 # ---------------------------------------------------------------------------
 
-def gen_ops(fam, rng, helper, nops, meta=None):
+def gen_ops(fam, rng, helper, nops, meta=None, sticky=0.0):
+    """sticky: probability of repeating the previous op's (class, entry point, direction) - the same call with another
+    dialect / other flags / another value right after: the order in which dialects and flags are first used"""
     ops = []
+    prev = None
     mix = [i for i, c in enumerate(fam["classes"]) if F.entry_points(fam, i)]
     tries = 0
     while len(ops) < nops and tries < nops * 6:
         tries += 1
-        i = rng.choice(mix)
+        if prev is not None and rng.random() < sticky:
+            i, (fmt, pk, up), force_pack = prev
+        else:
+            i = rng.choice(mix)
+            fmt, pk, up = rng.choice(F.entry_points(fam, i))
+            force_pack = rng.random() < 0.5
+        prev = (i, (fmt, pk, up), force_pack)
         c = fam["classes"][i]
-        fmt, pk, up = rng.choice(F.entry_points(fam, i))
         d = rng.choice([None, "D1", "D2"]) if c["dsup"] else None
         kws = []
         if d:
@@ -64,7 +63,7 @@ def gen_ops(fam, rng, helper, nops, meta=None):
             pkws.append("encoder=enc_mark")
         pack = f"{val}.{pk}({', '.join(pkws)})"
         r = rng.random()
-        if r < 0.5:
+        if force_pack:
             ops.append(pack)
             if meta is not None:
                 meta.append({"cls": i, "fmt": fmt, "pack": True, "dialect": d, "tree": tree, "valid": True})
@@ -78,7 +77,7 @@ def gen_ops(fam, rng, helper, nops, meta=None):
                 wire = eval(wire_pack, helper.__dict__)
         except BaseException:
             continue
-        if r > 0.93 and isinstance(wire, dict) and wire:
+        if r > 0.86 and isinstance(wire, dict) and wire:
             wire = dict(wire)
             wire.pop(rng.choice(sorted(wire)), None)      # an invalid input: the error path through stubs
             valid = False
@@ -107,7 +106,7 @@ def gen_case(rng, nops=6, max_classes=5, focus=None):
         return {"fam": fam, "skip": "twin-creation-" + type(e).__name__}
     meta = []
     try:
-        ops = gen_ops(fam, rng, helper, nops, meta)
+        ops = gen_ops(fam, rng, helper, nops, meta, sticky=0.5 if focus == "kwargs" else 0.15)
     finally:
         F.unload(helper)
     return {"fam": fam, "mode": mode, "order": order, "lazy": lazy, "src": src, "twin_src": twin_src, "ops": ops, "opmeta": meta}
@@ -150,46 +149,15 @@ def has_class_cycle(fam) -> bool:
     return any(i in reach(i) for i in range(n))
 
 
-def selfref_dialect_gap(fam, snap) -> bool:
-    """a SELF-REFERENCING class whose dialect cache of some (format, direction) is filled while the class has no own
-    nested method for it: the dialect-specific builder took the 'class being compiled' shortcut; the generated call
-    then raises AttributeError or - if an ancestor has the method - silently runs the ancestor's code"""
-    for c in fam["classes"]:
-        own = snap.get(c["name"])
-        if not own or not self_referencing(fam, c["name"]):
-            continue
-        for cname, ds in own["c"].items():
-            mm = re.match(r"^(\w+)_(packer|unpacker)$", cname)
-            if not ds or not mm:
-                continue
-            name = ("to" if mm.group(2) == "packer" else "from") + "_dict" + ("" if mm.group(1) == "dict" else "_" + mm.group(1))
-            if name not in own["m"]:
-                return True
-    return False
-
-
 def classify(fam, op, got, exp, got_aux, exp_aux, got_snap, exp_snap, src="") -> dict:
     """signature of a difference between the family under test (`got`) and the fresh eager twin (`exp`).
     kind is one of the known-finding kinds only when the precise predicate of that finding holds on the
     side that failed; otherwise 'history-dependence' (= a violation)."""
     sig = {"kind": "history-dependence", "got": got[1] if got[0] == "EXC" else "OK", "exp": exp[1] if exp[0] == "EXC" else "OK"}
-    for side, snap in (("family", got_snap), ("twin", exp_snap)):
-        if "dialect=" in op and fam["classes"] and selfref_dialect_gap(fam, snap):
-            return {**sig, "kind": "dialect-first-call-on-self-referencing-class", "side": side}
     for side, out, aux, snap in (("family", got, got_aux, got_snap), ("twin", exp, exp_aux, exp_snap)):
         other = exp if side == "family" else got
         if out[0] != "EXC" or out == other:
             continue
-        if out[1] == "RecursionError" and "Discriminator(" in src and re.search(r"\.from_(?!dict\()\w+\(", op):
-            # the registry of discriminated subtypes is shared by all formats: once another format filled it,
-            # Sub.__mashumaro_from_dict_<fmt>__ resolves through the MRO to the base class' dispatcher
-            return {**sig, "kind": "discriminator-registry-shared-across-formats", "side": side}
-        if len(out) > 4 and out[3] == "AttributeError" and "dialect=" in op:
-            mm = SELF_ATTR_RE.search(out[4])
-            if mm and self_referencing(fam, mm.group(1) or mm.group(2)):
-                # a dialect-specific builder takes the "class being compiled" shortcut for a self reference, but it
-                # installs no default method: the first call with a dialect on a self-referencing class fails
-                return {**sig, "kind": "dialect-first-call-on-self-referencing-class", "side": side}
         if out[1] == "RecursionError":
             if aux.get("rec") == "redispatch" and has_spec_stub(snap):
                 # the stub installed for a specialised method G.__mashumaro_*_<md5>__ rebuilds the
@@ -278,6 +246,8 @@ def oracle_histories(ctx: vlib.Ctx, n: int, keep_cases=None, focus=None):
             for _, t in c["fields"]:
                 if t[0] == "dc":
                     feats.add("self-ref" if t[1] == i else ("forward-ref" if t[1] > i else "nested"))
+                    if len(t) > 4:
+                        feats.add("typing.Self")
                     if t[3]:
                         feats.add("specialisation")
                         if any(a.startswith("aux") for a in t[3]):
@@ -404,6 +374,91 @@ def oracle_scenarios(ctx: vlib.Ctx):
 
 
 # ---------------------------------------------------------------------------
+# oracle 1c: discriminated class hierarchies (variants are compiled on demand by the generated dispatcher)
+# ---------------------------------------------------------------------------
+
+def gen_discriminated(rng):
+    mix = rng.choice(["dict", "msgpack", "orjson", "toml", "msgpack"])
+    base = F.MIXINS[mix][1]
+    dsup = rng.random() < 0.7
+    opts = "[ADD_DIALECT_SUPPORT]" if dsup else "[]"
+    nsub = rng.randint(1, 3)
+    lazy = [rng.random() < 0.5 for _ in range(nsub + 2)]
+    out = [f"""
+@dataclass(kw_only=True)
+class Base({base}):
+    x: int = 0
+    class Config(BaseConfig):
+        lazy_compilation = {lazy[0]}
+        code_generation_options = {opts}
+        discriminator = Discriminator(field="kind", include_subtypes=True)
+"""]
+    parents = ["Base"]
+    fam = {"classes": [{"name": "Base", "parent": None, "fields": [], "kind": "mixin", "mixins": [mix], "dsup": dsup, "generic": 0}]}
+    for i in range(nsub):
+        par = rng.choice(parents)
+        fam["classes"].append({"name": f"Sub{i}", "parent": parents.index(par), "fields": [], "kind": "mixin", "mixins": [mix],
+                               "dsup": dsup, "generic": 0})
+        out.append(f"""
+@dataclass(kw_only=True)
+class Sub{i}({par}):
+    kind = "s{i}"
+    y{i}: int = {i}
+    class Config(BaseConfig):
+        lazy_compilation = {lazy[i + 1]}
+        code_generation_options = {opts}
+""")
+        parents.append(f"Sub{i}")
+    out.append(f"""
+@dataclass(kw_only=True)
+class Holder({base}):
+    b: Base
+    bs: List[Base] = field(default_factory=list)
+    class Config(BaseConfig):
+        lazy_compilation = {lazy[-1]}
+        code_generation_options = {opts}
+""")
+    src = SCEN_HEADER + "".join(out)
+    ops = []
+    _pk, up = F.ENTRY[mix]
+
+    def variant():
+        i = rng.randrange(nsub)
+        return {"x": rng.randint(0, 9), "kind": f"s{i}", f"y{i}": rng.randint(0, 9)}
+    for _ in range(rng.randint(3, 6)):
+        cls = rng.choice(["Holder", "Holder", "Base"])
+        d = variant() if cls == "Base" else {"b": variant(), "bs": [variant() for _ in range(rng.randint(0, 2))]}
+        kws = []
+        if dsup and rng.random() < 0.6:
+            kws.append("dialect=" + rng.choice(["D1", "D2"]))
+            if kws[0].endswith("D2"):
+                d = json.loads(json.dumps(d), parse_int=lambda v: int(v) + 1000)
+        r = rng.random()
+        if mix == "dict" or r < 0.4:
+            ops.append(f"{cls}.from_dict({d!r}{', ' + ', '.join(kws) if kws else ''})")
+        elif mix == "msgpack" and r < 0.7:
+            ops.append(f"{cls}.{up}(msgpack.packb({d!r}){', ' + ', '.join(kws) if kws else ''})")
+        else:
+            ops.append(f"{cls}.{up}({repr(d)!r}, {', '.join(kws + ['decoder=dec_lit'])})")
+    fam["classes"].append({"name": "Holder", "parent": None, "fields": [], "kind": "mixin", "mixins": [mix], "dsup": dsup, "generic": 0})
+    return src, src.replace("lazy_compilation = True", "lazy_compilation = False"), ops, {"mixin": mix, "dsup": dsup, "fam": fam}
+
+
+def oracle_discriminated(ctx: vlib.Ctx, n: int):
+    for _ in range(n):
+        src, twin_src, ops, info = gen_discriminated(ctx.rng)
+        case = {"fam": info["fam"], "src": src, "twin_src": twin_src, "ops": ops}
+        res = run_history(case)
+        ctx.hist("discriminated hierarchies", info["mixin"] + ("+dialects" if info["dsup"] else ""))
+        for k, op, got, exp, sig in res:
+            ctx.count(("discriminated", info["mixin"], info["dsup"], "dialect=" in op, op.split("(")[0], k == 0))
+            if sig is not None:
+                ctx.fail(f"discriminated hierarchy ({info['mixin']}): op #{k} `{op[:120]}` gives {short(got, 160)} but a fresh eager twin gives {short(exp, 160)}",
+                         {"entry": "history", "mode": "discriminated", "family": case["fam"], "source": src, "twin_source": twin_src,
+                          "ops": ops[:k + 1], "failing_op": k, "observed": got, "expected": exp}, sig)
+
+
+# ---------------------------------------------------------------------------
 # oracle 2: threads making the first call at once
 # ---------------------------------------------------------------------------
 
@@ -493,15 +548,16 @@ def run(ctx: vlib.Ctx):
         from harness.props import c14_coq
         c14_coq.theorems(ctx)
         cases = []
-        oracle_histories(ctx, ctx.budget(110, 1500), keep_cases=cases)
+        oracle_histories(ctx, ctx.budget(90, 1300), keep_cases=cases)
         oracle_histories(ctx, ctx.budget(60, 500), keep_cases=cases, focus="spec")
-        oracle_histories(ctx, ctx.budget(40, 400), keep_cases=cases, focus="kwargs")
+        oracle_histories(ctx, ctx.budget(60, 500), keep_cases=cases, focus="kwargs")
         tie_ok = c14_coq.correspondence(ctx, cases)
         if not tie_ok or ctx.unshown:
             # a broken obligation / tie: search harder where the disagreement lives
             oracle_histories(ctx, ctx.budget(150, 600), focus="spec")
             oracle_histories(ctx, ctx.budget(100, 400), focus="kwargs")
         oracle_scenarios(ctx)
+        oracle_discriminated(ctx, ctx.budget(90, 600))
         oracle_threads(ctx, ctx.budget(20, 150), ctx.budget(6, 12))
     finally:
         sys.setrecursionlimit(old)
